@@ -143,6 +143,18 @@ def check_series(part: Part, vals, calc, core):
     mult = [fv[i] / fv[i - 1] for i in range(1, n)]
     rates = [m - 1 for m in mult]
     sd = ref_std(rates)
+    # unsigned integer series (balances in smallest units): a drawdown is a drawdown
+    if all(v.denominator == 1 for v in vals):
+        part.count("evaluations")
+        with np.errstate(all="ignore"):
+            try:
+                mu = float(calc.max_draw_down(pd.Series([int(v) for v in vals], dtype="uint64")))
+            except Exception as e:  # noqa: BLE001
+                mu = None
+                part.violation(f"C20|unsigned-series|exception|{type(e).__name__}", f"max_draw_down raised on an unsigned integer series: {e}"[:160], {"fn": "integer_series", "series": fv})
+        if mu is not None and not close(mu, expected_mdd, rel=1e-9):
+            part.violation("C20|unsigned-series|max_draw_down", "max_draw_down of an unsigned-integer series differs from the definition", {"fn": "integer_series", "series": fv},
+                           {"got": mu, "expected": float(expected_mdd)})
     # integer-typed series (whole-number net values, dtype int64): the same numbers must come out
     if all(v.denominator == 1 for v in vals):
         si = pd.Series([int(v) for v in vals], dtype="int64")
@@ -218,6 +230,31 @@ def check_series(part: Part, vals, calc, core):
                 pm[M.duration] != (idx[-1] - idx[0]) + (idx[1] - idx[0]):
             part.violation("C20|performance_metrics|period", "start/end/duration wrong",
                            {"fn": "performance_metrics", "series": fv, "interval": freq, "metric": "period"})
+        if i_freq == 1 and n >= 3:
+            # the same series as it arrives from other sources: a time index stored at another resolution (ns / ms / s), and a time-zone-aware index of a zone
+            # whose clocks change inside the run (bars evenly spaced in TIME): duration and interval are spans of time, not of index units or wall-clock readings
+            variants = [(f"unit={u}", s.set_axis(idx.as_unit(u))) for u in ("ns", "ms", "s")]
+            tz_idx = pd.date_range("2024-03-30 20:00", periods=n, freq="4h", tz="Europe/Berlin")  # clocks go forward on 2024-03-31 02:00
+            variants.append(("tz=Europe/Berlin across the clock change", pd.Series(fv, index=tz_idx)))
+            for vname, vs in variants:
+                v_int = interval_in_day if not vname.startswith("tz") else 4 / 24
+                v_dur = v_int * n
+                try:
+                    v_apr = float(vals[-1] / vals[0]) ** (365 / v_dur) - 1
+                except OverflowError:
+                    continue
+                with np.errstate(all="ignore"):
+                    vpm = core.performance_metrics(vs, annualized_risk_free_rate=rf)
+                part.count("evaluations")
+                part.count("index_variants")
+                v_vol = None if sd is None else sd * math.sqrt(365 / v_int)
+                bad = (math.isfinite(v_apr) and not close(vpm[M.annualized_return], v_apr, rel=1e-7, abs_=1e-9)) or \
+                    (v_vol is not None and not close(vpm[M.volatility], v_vol, rel=1e-7, abs_=1e-9))
+                if bad:
+                    part.violation(f"C20|performance_metrics|index-variant|{vname.split('=')[0]}", "annualised return / volatility change with the way the time index is stored (resolution, time zone)",
+                                   {"fn": "performance_metrics", "series": fv, "interval": freq, "metric": vname},
+                                   {"annualized_return": vpm[M.annualized_return], "expected": v_apr, "volatility": vpm[M.volatility], "expected_volatility": v_vol})
+                    break
         if n >= 4 and i_freq % 2 == 0:
             # a bar is missing from the history (an outage): the run still lasts from its first bar to the end of its last one, whatever the number of rows
             hidx = pd.date_range("2024-01-01", periods=n + 1, freq=freq).delete(n // 2 + 1)
